@@ -116,8 +116,13 @@ def o_detect(case):
     frame = bytes.fromhex(case["frame"])
     if framing.frame_problem(frame) is not None:
         raise AssertionError("harness: generated frame is not valid")
-    RTCMReader = _lib()[0]
-    RTCMReader.parse(frame, validate=1)  # the undamaged frame must be accepted (lib exception -> violation)
+    RTCMReader, RTCMParseError = _lib()[0], _lib()[1]
+    try:
+        RTCMReader.parse(frame, validate=1)  # the undamaged frame must pass the CRC test ...
+    except RTCMParseError as e:
+        raise Fail("valid-frame-rejected", f"a frame with a correct CRC-24Q (len {len(frame)}) was rejected: {e}") from e
+    except Exception:  # pylint: disable=broad-except
+        pass  # ... whether its payload then decodes is not C08's business (some generated payloads start with a defined number)
     nbits = len(frame) * 8
     mode = case["mode"]
     evals = 0
